@@ -342,5 +342,46 @@ func main() {
 		return true
 	})
 	ex.DefStrList("readMessage", steps)
+
+	// the read loops: what happens on a read error, and what follows the loop
+	var ends []string
+	var after [][]string
+	for _, file := range []string{"p2p/peer/peer.go", "dpos/p2p/peer/peer.go"} {
+		pf := ex.Parse(file)
+		ih := pf.MustFunc("Peer.inHandler")
+		for i, st := range ih.Body.List {
+			ls, ok := st.(*ast.LabeledStmt)
+			if !ok {
+				continue
+			}
+			loop, ok := ls.Stmt.(*ast.ForStmt)
+			if !ok {
+				continue
+			}
+			end := "?"
+			for _, b := range loop.Body.List {
+				if is, ok := b.(*ast.IfStmt); ok && pf.Src(is.Cond) == "err != nil" && len(is.Body.List) > 0 {
+					end = pf.Src(is.Body.List[len(is.Body.List)-1])
+					break
+				}
+			}
+			ends = append(ends, end)
+			var rest []string
+			for _, a := range ih.Body.List[i+1:] {
+				rest = append(rest, pf.Src(a))
+			}
+			after = append(after, rest)
+			break
+		}
+	}
+	ex.DefStrList("inHandlerErrEnds", ends)
+	fmt.Print("def inHandlerAfterLoop : List (List String) := [")
+	for i, a := range after {
+		if i > 0 {
+			fmt.Print(", ")
+		}
+		fmt.Print(ex.StrList(a))
+	}
+	fmt.Println("]")
 	ex.Footer("C35")
 }
